@@ -39,6 +39,8 @@ class Harness:
         self.target = ""
         self.prop = ""
         self.solver = ""
+        self.heavy = ""             # "1": multi-GB CBMC run; such harnesses run at most 3 at a time
+        self.unwindset = ""         # "regex=N;regex=N": per-loop bounds, resolved against `cbmc --show-loops`
 
     @property
     def full(self):
@@ -237,6 +239,9 @@ def kani_env():
     return env
 
 
+PEAK_RSS = {}
+
+
 def watchdog(proc, stop, killed):
     """Kill any cbmc in proc's session whose RSS exceeds the cap."""
     while not stop.is_set():
@@ -252,9 +257,11 @@ def watchdog(proc, stop, killed):
                     continue
                 m = re.search(r"VmRSS:\s+(\d+) kB", st)
                 n = re.search(r"Name:\s+(\S+)", st)
-                if m and n and n.group(1).startswith("cbmc") and int(m.group(1)) > RSS_CAP_KB:
-                    killed.append((pid, int(m.group(1))))
-                    os.kill(int(pid), signal.SIGKILL)
+                if m and n and n.group(1).startswith("cbmc"):
+                    PEAK_RSS["kb"] = max(PEAK_RSS.get("kb", 0), int(m.group(1)))
+                    if int(m.group(1)) > RSS_CAP_KB:
+                        killed.append((pid, int(m.group(1))))
+                        os.kill(int(pid), signal.SIGKILL)
         except Exception:
             pass
         stop.wait(2.0)
@@ -334,20 +341,28 @@ def run_kani(ws, harnesses, logdir):
     results = {}
     groups = {}
     for h in harnesses:
-        groups.setdefault((h.cbmc, h.solver), []).append(h)
-    for gi, ((cbmc, solver), hs) in enumerate(sorted(groups.items())):
+        groups.setdefault((h.cbmc, h.solver, h.heavy), []).append(h)
+    for gi, ((cbmc, solver, heavy), hs) in enumerate(sorted(groups.items())):
+        jobs = min(3 if heavy else JOBS, max(1, len(hs)))
         jpath = os.path.join(logdir, f"kani-{gi}.json")
         tmax = max(h.timeout for h in hs)
         cmd = ["cargo", "kani", "-p", "trustfall_core", "-Z", "function-contracts", "-Z", "stubbing",
-               "-Z", "unstable-options", "--exact", "-j", str(min(JOBS, max(1, len(hs)))), "--output-format", "terse",
+               "-Z", "unstable-options", "--exact", "-j", str(jobs), "--output-format", "terse",
                "--harness-timeout", f"{tmax}s", "--export-json", jpath]
         if solver:
             cmd += ["--solver", solver]
         for h in hs:
             cmd += ["--harness", h.full]
-        if cbmc:
-            cmd += ["--cbmc-args"] + cbmc.split()
-        waves = (len(hs) + JOBS - 1) // JOBS
+        extra = cbmc.split() if cbmc else []
+        if any(h.unwindset for h in hs):
+            us, problems = resolve_unwindsets(ws, hs, cmd, logdir, gi)
+            for h, why in problems:
+                results[h.name] = dict(status="undecided", reason=why, checks=0, ok=0, covers_ok=0, failed=[], soft=[], cover_bad=[], solver_s=None, symex_s=None, duration_s=0)
+            if us:
+                extra += ["--unwindset", ",".join(us)]
+        if extra:
+            cmd += ["--cbmc-args"] + extra
+        waves = (len(hs) + jobs - 1) // jobs
         rc, out, wall, timed_out, killed = run_cmd(cmd, ws, kani_env(), tmax * waves + 900)
         open(os.path.join(logdir, f"kani-{gi}.log"), "w").write(" ".join(cmd) + "\n" + out)
         data = None
@@ -368,6 +383,8 @@ def run_kani(ws, harnesses, logdir):
             for c in data.get("cbmc", []):
                 stats[c["harness_id"]] = c.get("cbmc_stats", {})
         for h in hs:
+            if h.name in results:
+                continue
             if h.full in by:
                 results[h.name] = classify(h, by[h.full], stats.get(h.full))
                 ex = errd.get(h.full, {}).get("exit_status")
@@ -391,14 +408,65 @@ def run_kani(ws, harnesses, logdir):
     return results
 
 
+def find_goto_binary(name):
+    pat = os.path.join(CACHE, "target-kani", "kani", "*", "debug", "build", "trustfall_core", "*", "out", f"*{len(name)}{name}.out")
+    cands = [p for p in glob.glob(pat) if not p.endswith(".symtab.out")]
+    return max(cands, key=os.path.getmtime) if cands else None
+
+
+def show_loops(binary):
+    rc, out, _, _, _ = run_cmd(["cbmc", "--show-loops", binary], os.path.dirname(binary), dict(os.environ), 120)
+    loops = []
+    for m in re.finditer(r"^Loop (\S+):\n\s+(.*)$", out, re.M):
+        loops.append((m.group(1), m.group(2)))
+    return loops
+
+
+def resolve_unwindsets(ws, hs, cmd, logdir, gi):
+    """Per-loop unwinding bounds are given as regexes over loop id + location; resolve them to CBMC
+    loop ids by compiling first (`--only-codegen`) and asking `cbmc --show-loops`."""
+    ccmd = [c for c in cmd]
+    # strip verification-only flags
+    for flag, nargs in (("-j", 1), ("--output-format", 1), ("--harness-timeout", 1), ("--export-json", 1)):
+        while flag in ccmd:
+            k = ccmd.index(flag)
+            del ccmd[k:k + 1 + nargs]
+    ccmd.append("--only-codegen")
+    rc, out, wall, to, _ = run_cmd(ccmd, ws, kani_env(), 1800)
+    open(os.path.join(logdir, f"kani-{gi}-codegen.log"), "w").write(" ".join(ccmd) + "\n" + out)
+    entries, problems = {}, []
+    for h in hs:
+        if not h.unwindset:
+            continue
+        b = find_goto_binary(h.name)
+        if rc != 0 or b is None:
+            continue  # compile error is reported by the main run
+        loops = show_loops(b)
+        for item in h.unwindset.split(";"):
+            if not item.strip():
+                continue
+            pat, n = item.rsplit("=", 1)
+            hits = [lid for lid, desc in loops if re.search(pat, lid + " " + desc)]
+            if not hits:
+                problems.append((h, f"lost anchor: unwindset pattern `{pat}` matches no loop of harness {h.name}"))
+            for lid in hits:
+                entries[lid] = max(entries.get(lid, 0), int(n))
+    return [f"{k}:{v}" for k, v in sorted(entries.items())], problems
+
+
 def concrete_playback(ws, h, logdir):
     cmd = ["cargo", "kani", "-p", "trustfall_core", "-Z", "function-contracts", "-Z", "stubbing", "-Z", "unstable-options",
            "-Z", "concrete-playback", "--concrete-playback=print", "--exact", "--harness", h.full,
            "--harness-timeout", f"{h.timeout}s"]
     if h.solver:
         cmd += ["--solver", h.solver]
-    if h.cbmc:
-        cmd += ["--cbmc-args"] + h.cbmc.split()
+    extra = h.cbmc.split() if h.cbmc else []
+    if h.unwindset:
+        us, _ = resolve_unwindsets(ws, [h], cmd, logdir, "pb-" + h.name)
+        if us:
+            extra += ["--unwindset", ",".join(us)]
+    if extra:
+        cmd += ["--cbmc-args"] + extra
     rc, out, wall, to, killed = run_cmd(cmd, ws, kani_env(), h.timeout + 600)
     open(os.path.join(logdir, f"playback-{h.name}.log"), "w").write(out)
     m = re.search(r"Concrete playback unit test for.*?```(.*?)```", out, re.S)
@@ -630,6 +698,7 @@ def check_property(prop, tier, repo, only=None, keep=False, do_replay=True, writ
     if write_evidence and not only:
         write_evidence_file(prop, tier, seed, harnesses, results, verus, anchors, meta, violations, known, undecided, wall)
     npass = sum(1 for h in harnesses if results.get(h.name, {}).get("verdict") == "discharged")
+    log(f"[{prop}/{tier}] peak cbmc RSS {PEAK_RSS.get('kb', 0) / 1048576:.1f} GB")
     log(f"[{prop}/{tier}] harnesses={len(harnesses)} discharged={npass} controls={sum(1 for h in harnesses if results.get(h.name, {}).get('verdict') == 'control-ok')} "
         f"known={len(known)} violations={len(violations)} undecided={len(undecided)} verus={[v['status'] for v in verus]} wall={wall:.0f}s")
     if violations:
